@@ -394,7 +394,11 @@ func randPool(r *hx.Rng, na int, quorums []string, secs []int64) *content {
 	if r.Chance(5) {
 		name = 2
 	}
-	return &content{Kind: "poolupdate", A: name, Owners: owners, B: quorums[r.Intn(len(quorums))], Period: secs[r.Intn(len(secs))], Enact: secs[r.Intn(len(secs))]}
+	q := quorums[r.Intn(len(quorums))]
+	if r.Chance(6) { // outside [0,1]: rejected by ValidateBasic as a proposal; as a directly created pool it makes every tally inconsistent
+		q = []string{"1500000000000000000", "-100000000000000000", "1000000000000000001"}[r.Intn(3)]
+	}
+	return &content{Kind: "poolupdate", A: name, Owners: owners, B: q, Period: secs[r.Intn(len(secs))], Enact: secs[r.Intn(len(secs))]}
 }
 
 func boundarySpecs() (core, all []bspec) {
